@@ -189,11 +189,10 @@ def cases(run):
             if r < 0.55:
                 a = rng.randint(0, cur)
                 b = rng.randint(a, cur)
-                if rng.random() < 0.12:
-                    a, b = rng.choice([(None, b), (a, None), (-1, b), (a, cur + 1), (b, a)])
+                if rng.random() < 0.2:
+                    a, b = rng.choice([(None, b), (a, None), (None, None), (a - cur, b), (a, b - cur - 1), (a, cur + 3), (b, a)])
                 prog.append(("sl", a, b, None if rng.random() < 0.9 else rng.choice([1, 2, -1])))
-                if a is not None and b is not None and 0 <= a <= b <= cur:
-                    cur = b - a
+                cur = len(range(*slice(a, b).indices(cur)))
             elif r < 0.7 and cur > 0:
                 prog.append(("ix", rng.randint(0, cur - 1)))
                 cur = 1
